@@ -634,7 +634,7 @@ pub fn finish(ctx: &Ctx) -> i32 {
     crate::engine::finish(
         ctx,
         Finish {
-            rule: "cases: (a) every core opcode (min and max form) in four contexts: minimal well-bracketed wrapper, bare at module scope, inside an open block, inside a function outside any block; (b) ALL words up to length 5 (thorough: 6) over the 12-letter structural alphabet {function, end, parameter, label, terminator, block instruction, variable, undef, line, type, capability, decoration}; (c) generated modules with up to two structural faults (instruction deleted / duplicated / swapped). Oracle: layout automaton R2 (hand-written instruction classes): load_words is Ok iff R2 accepts; on Err the dr::Error class of the first offending instruction; on Ok a field-by-field comparison with the model module (sections, functions, blocks, order) plus def/end/label/terminator invariants. non-trivial = stream with a function and >= 4 instructions; distinct = hash of the words. `entry-points`: the verdict (and, on success, the module) must be the same through dr::load_bytes, dr::load_words, parse_bytes / parse_words driving a caller-owned Loader::new() or Loader::default(), and a Loader fed by hand through its Consumer methods.",
+            rule: "cases: (a) every core opcode (min and max form) in four contexts: minimal well-bracketed wrapper, bare at module scope, inside an open block, inside a function outside any block; (b) ALL words up to length 5 (thorough: 6) over the 12-letter structural alphabet {function, end, parameter, label, terminator, block instruction, variable, undef, line, type, capability, decoration}; (c) generated modules with up to two structural faults (instruction deleted / duplicated / swapped). Oracle: layout automaton R2 (hand-written instruction classes): load_words is Ok iff R2 accepts; on Err the dr::Error class of the first offending instruction; on Ok a field-by-field comparison with the model module (sections, functions, blocks, order) plus def/end/label/terminator invariants. non-trivial = stream with a function and >= 4 instructions; distinct = hash of the words. `entry-points`: the verdict (and, on success, the module) must be the same through dr::load_bytes, dr::load_words, parse_bytes / parse_words driving a caller-owned Loader::new() or Loader::default(), and a Loader fed by hand through its Consumer methods. Added in rounds 18-19: opcode-contexts with an operand naming an imported set (8 names); huge-modules (one structural element repeated up to 1 048 581 times, closed / unclosed / stray instruction).",
             assumptions: vec![
                 "context-dependent or vendor-specified module-scope opcodes (vendor OpType*/OpConstant* outside the documented classes, module-scope OpExtInst etc.) are outside the claim and skipped (counted)".into(),
                 "at end of stream with a block open either UnclosedBlock or UnclosedFunction is admissible".into(),
